@@ -47,6 +47,18 @@ def impl_bst(a):
         return r
     return call_impl(run)
 
+def impl_pattern(a):
+    """the live module-level regex objects (and the separator literal of split_name_list)"""
+    import re as _re
+    u = _u(); k = a[0]; s = S(a[1])
+    if k == 0:
+        return norm(u.BIBTEX_SPACE_RE.split(s))
+    if k == 1:
+        return norm(u.purify_special_char_re.sub('', s))
+    if k == 2:
+        return norm(_re.compile(' [Aa][Nn][Dd] ').split(s))
+    return norm(list(u._find_closing_brace(s)))
+
 FUNCS = {
     1: ('scan_bibtex_string', impl_scan, ('T', 'S')),
     2: ('bibtex_len', impl_len, ('T', 'S')),
@@ -59,6 +71,7 @@ FUNCS = {
     9: ('split_tex_string', impl_split, ('T', 'S', 'X', 'X', 'X')),
     10: ('bibtex_first_letter', impl_first_letter, ('T', 'S')),
     11: ('bibtex_abbreviate', impl_abbreviate, ('T', 'S', ('O', 'S'))),
+    13: ('regex objects BIBTEX_SPACE_RE / purify_special_char_re / name-list separator', impl_pattern, ('T', 'X', 'S')),
     12: ('BST builtins substring$/text.prefix$/text.length$/purify$/change.case$/width$/num.names$', impl_bst, ('T', 'X', 'S', 'I', 'I', 'X')),
 }
 
@@ -66,7 +79,7 @@ ALPHA = 'aB1 ~-{}\\,:'
 RULE = ('exhaustive: every string over the 11-letter alphabet {a B 1 space ~ - { } \\ , :} up to the length bound, each given to every '
         'function (with every start/length/count in [-(n+2), n+2], every mode letter, the four separators x strip x filter_empty) and to the BST builtins; '
         'random: long strings over a wider alphabet (letters, digits, all Python whitespace, TeX punctuation), special characters, nesting to depth 105; '
-        'malformed: token-level delete/duplicate/replace/truncate of the random strings. '
+        'malformed: token-level delete/duplicate/replace/truncate of the random strings; pattern_sweep: BIBTEX_SPACE_RE.split, purify_special_char_re.sub and the name-list separator against the hand-written matchers on all strings up to length 5/6 over per-pattern alphabets. '
         'distinct = distinct (function, argument); non-trivial = the string contains a brace or a backslash and the call succeeded.')
 EXHAUSTIVE = {'quick': 'all strings of length <= 3 over an 11-letter alphabet x all functions x all integer arguments in [-(n+2), n+2] (plus a seeded 15 % sample of length 4 with boundary integer arguments)',
               'thorough': 'all strings of length <= 3 over an 11-letter alphabet x all functions x all integer arguments in [-(n+2), n+2]; all strings of length 4 and a seeded 2 % sample of length 5 with boundary integer arguments (memory bound: the harness keeps every case in memory, ~1.2 kB per case)'}
@@ -82,6 +95,8 @@ PARTIAL = [
 ]
 
 def describe(fn, a):
+    if fn == 13:
+        return {'pattern': ['BIBTEX_SPACE_RE.split', 'purify_special_char_re.sub', "' [Aa][Nn][Dd] '.split", '_find_closing_brace'][a[0]], 'string': S(a[1])}
     if fn == 12:
         return {'function': BST[a[0]], 'string': S(a[1]), 'args': [a[2], a[3], S(a[4])]}
     d = {'function': FUNCS[fn][0], 'string': S(a[0])}
@@ -89,7 +104,12 @@ def describe(fn, a):
         d['args'] = a[1:]
     return d
 
+def canon(fn, out):
+    return out if fn == 13 else canon_res(out)
+
 def nontrivial(fn, a, out):
+    if fn == 13:
+        return len(out) > 1 if a[0] in (0, 2) else out != a[1]
     return out[0] == 0 and any(c in (123, 125, 92) for c in (a[1] if fn == 12 else a[0]))
 
 def cw_for(s):
@@ -187,10 +207,10 @@ def one_to_one_case(s):
 
 SEP_RE = [re.compile(r'(?:\\ |\s|(?<!\\)~)+'), re.compile(','), re.compile('-'), re.compile(' [Aa][Nn][Dd] ')]
 
-def reassemble(s, pieces, sepk, filtered):
+def reassemble(s, pieces, sepk, filtered, dep=None):
     """unfiltered: s = p1 S1 p2 ... S(n-1) pn;  filtered (empty pieces dropped): s = S* p1 S+ p2 ... S+ pn S*;
     every S a match of the separator pattern (in the context of s) all of whose characters are at brace depth 0"""
-    dep = depths(s)
+    dep = dep or depths(s)
     pat = SEP_RE[sepk]
     n = len(s)
     def sep_ends(pos):
@@ -233,6 +253,8 @@ def reassemble(s, pieces, sepk, filtered):
     return F(0, 0, True)
 
 def oracle(fn, a, out):
+    if fn == 13:
+        return None      # pattern conformance is a correspondence matter only
     if fn == 12:
         k = a[0]
         if k == 4:
@@ -424,8 +446,17 @@ PINNED = ['', 'abc', 'a{b}c', '{\\', '{\\}', '{\\a', '{a', '}', '}{', 'ab{\\cd',
           'a:  B c:\tD', 'a:B C', '{\\a B}:{\\c D} E', 'abcdef', 'ab{cd}', 'ab{\\cd}', 'level 0 {1 {\\2}}', '{\\a}{\\b}c', '{}', '{}{\\a}', 'a{\\}b',
           'x{y} and {z and w} AND v', ' and ', 'a and ', ' and and and ', 'a,,b,{c,d},', '-a--b-{-c-}-', '~a~~b\\ c\\~d ~']
 
+SWEEP = [(0, 'a ~\\\xa0\t'), (1, '\\aZ1 {'), (2, ' aAnNdDx')]
 def gen(tier, rng):
     quick = tier == 'quick'
+    # pattern conformance sweep: all strings up to the bound over a per-pattern alphabet
+    for k, alpha in SWEEP:
+        bound = (4 if k == 2 else 5) if quick else (5 if k == 2 else 6)
+        for n in range(0, bound + 1):
+            for tup in itertools.product(alpha, repeat=n):
+                yield ('pattern_sweep', 13, [k, ''.join(tup)])
+    for s in [' and ', 'a and b', 'a AND b and  c', ' And and ', 'x aNd y', 'a and', 'and b', ' and  and ']:
+        yield ('pattern_sweep', 13, [2, s])
     for s in PINNED:
         for fn, a in cases_for(s, full=len(s) <= 6):
             yield ('pinned', fn, a)
@@ -454,7 +485,8 @@ def gen(tier, rng):
 # ----------------------------------------------------------------------------------------
 # known findings (listed in known_findings.d/C12.json)
 def _sig_p1(kind, fn, a, detail):
-    # bibtex_prefix of a string that ends inside an unclosed special character whose inner braces are still open
+    # bibtex_prefix of a string that ends inside an unclosed special character whose inner braces are still
+    # open, with n reaching the end of the string: the result is the whole string plus ONE closing brace
     if fn == 12 and a[0] == 1:
         fn, a = 3, [a[1], a[2]]
     if kind != 'oracle' or fn != 3 or not str(detail).startswith('prefix does not close the braces it opened'):
@@ -464,17 +496,30 @@ def _sig_p1(kind, fn, a, detail):
     if not (it and it[-1][0] == 's' and not it[-1][3]):
         return False
     inner = s[it[-1][1] + 1:]
-    return depths(inner)[-1] > 0 and a[1] >= spec_len(s)
+    if not (depths(inner)[-1] > 0 and a[1] >= spec_len(s)):
+        return False
+    return impl_prefix(a) == [0, norm(s + '}')]
 
 def _sig_s1(kind, fn, a, detail):
-    # split_tex_string on a string with a never-closed top-level brace group that contains another brace
-    if kind != 'oracle' or fn != 9 or 're-assemble' not in str(detail):
+    # split_tex_string on a string with a never-closed top-level brace group that contains another brace:
+    # the text after the last brace is treated as top level.  The signature matches only if the pieces DO
+    # re-assemble under exactly that (defective) notion of depth, so any other splitting error still alarms.
+    if kind != 'oracle' or fn != 9 or 're-assemble' not in str(detail) or a[2]:
         return False
     s = S(a[0])
-    for kind_, i, j, closed in items(s):
-        if kind_ in ('g', 's') and not closed:
-            return any(c in '{}' for c in s[i + 1:])
-    return False
+    it = items(s)
+    if not (it and it[-1][0] in ('g', 's') and not it[-1][3]):
+        return False
+    i = it[-1][1]
+    last = max(s.rfind('{'), s.rfind('}'))
+    if last <= i:
+        return False
+    dep = depths(s)
+    dep = dep[:last + 1] + [0] * (len(s) - last)
+    out = impl_split(a)
+    if out[0] != 0:
+        return False
+    return reassemble(s, [S(x) for x in out[1]], a[1], bool(a[3]) or a[1] == 0, dep)
 
 KNOWN_SIGNATURES = {'C12-P1': _sig_p1, 'C12-S1': _sig_s1}
 
